@@ -51,6 +51,7 @@ static std::string run_case(const std::string& line, unsigned caseno)
 	if (np < 1 || np > 64)
 		return "BAD-CASE";
 	size_t expect(0);
+	bool has_marker(false);
 	for (auto& p : prog)
 		for (char ch : p)
 		{
@@ -58,7 +59,11 @@ static std::string run_case(const std::string& line, unsigned caseno)
 			if (lev < 0 || lev > 4)
 				return "BAD-CASE";
 			if (mask & (1u << lev))
+			{
 				++expect;
+				if (ch >= 'a')
+					has_marker = true;
+			}
 		}
 
 	std::ostringstream pn;
@@ -109,9 +114,11 @@ static std::string run_case(const std::string& line, unsigned caseno)
 		usleep(delay);
 	else if (mode == "c")
 	{
-		// until the file is complete, or has not grown for 300 ms (it never becomes complete when the logger thread is gone)
+		// until the file is complete (at most 30 s).  Only when a program contains the stop marker (an empty text at an
+		// enabled level) can the file stay incomplete for ever: then until it has not grown for 2 s.
 		size_t last(0);
-		auto since(std::chrono::steady_clock::now());
+		const auto begin(std::chrono::steady_clock::now());
+		auto since(begin);
 		for (;;)
 		{
 			const size_t n(count_lines(path));
@@ -119,7 +126,7 @@ static std::string run_case(const std::string& line, unsigned caseno)
 				break;
 			const auto nowt(std::chrono::steady_clock::now());
 			if (n != last) { last = n; since = nowt; }
-			else if (nowt - since > std::chrono::milliseconds(300))
+			if (has_marker ? nowt - since > std::chrono::seconds(2) : nowt - begin > std::chrono::seconds(30))
 				break;
 			usleep(200);
 		}
